@@ -65,6 +65,7 @@ def run(ctx, extra_defs=()):
     R8 = ctx.rule('C17.R8', 'cross-thread entry points wake a polling loop after enqueueing')
     R10 = ctx.rule('C17.R10', 'retry objects (read/write until done): whether the operation is completed or re-armed after an I/O attempt is decided by the error code of that attempt, and the handler receives that code')
     R11 = ctx.rule('C17.R11', 'run_one only acts on events of the current poll: the shuffle of ready events swaps inside evs[0..n) (a stale slot of an earlier poll would complete a handler although its descriptor is not ready)')
+    R12 = ctx.rule('C17.R12', 'the loop\'s record of what a descriptor waits for (io_data::current_event) is the event set the reactor was armed with: after reactor::select(fd, ev, err) the record is assigned that same ev (or 0 on failure)')
     R9 = ctx.rule('C17.R9', 'a cancellation is dropped only when nothing is queued and nothing is registered for the descriptor')
 
     elg = [f for f in P.fns.values() if f.brecord and (f.brecord == EL or f.brecord.startswith(EL + '::'))]
@@ -539,7 +540,32 @@ def run(ctx, extra_defs=()):
             idx = elem_index(j)
             ok = idx is not None and _lin.implies(cons, _ge(idx)) and _lin.implies(cons, _ge(Nn - idx - _Lin.const(1)))
             ctx.check(ok, R11, 'randomize_events:access#%d:inside-0..n' % k, 'the shuffle can touch evs[n] or beyond: a stale record of an earlier poll is treated as a fresh event', rz.loc(j), detail={'index': repr(idx), 'facts': [repr(c_[1]) for c_ in cons]})
+
+    # ---------------- R12 reactor arming and book-keeping agree
+    n12 = 0
+    for f in sorted(P.fns.values(), key=lambda g: g.id):
+        if not f.file.endswith('/aio/src/io_service.cpp'):
+            continue
+        sels = [i for i in f.calls() if (f.bcallee(i) or '').endswith('reactor::select') and len([a for a in f.args(i) if f.N(a)['k'] != 'CXXDefaultArgExpr']) >= 3]
+        for k, c in enumerate(sels):
+            ev = f.args(c)[1]
+            evr = f.ref_of(ev)
+            ws = [w for w in q.field_writes(f, 'io_data::current_event') if q.reaches(f, c, w)]
+            if not ws:
+                continue
+            for m, w in enumerate(ws):
+                n12 += 1
+                n = f.N(w)
+                rhs = n['ch'][-1]
+                same = n.get('op') == '=' and ((evr is not None and f.ref_of(rhs) == evr) or f.const_value(rhs) == 0)
+                # the variable may only be zeroed (failed arming) between the call and the record
+                mid = [x for x in (q.writes_to(f, evr) if evr and evr.startswith(('v:', 'p:')) else []) if q.between(f, c, x, w)]
+                clean = all(f.N(x)['k'] == 'BinaryOperator' and f.N(x).get('op') == '=' and f.const_value(f.N(x)['ch'][1]) == 0 for x in mid)
+                ctx.check(same and clean, R12, '%s:select#%d:record#%d:same-event-set' % (f.record.split('::')[-1] + '::' + f.short if f.record else f.short, k, m),
+                          'the event set recorded for the descriptor differs from the one handed to the reactor: a later readiness event completes (or drops) a wait that was not satisfied', f.loc(w))
+    ctx.require(n12 >= 2 or ctx.violations, 'C17.R12: reactor::select / current_event pairs not found')
     ctx.floor(R1, 80)
+    ctx.floor(R12, 2)
     ctx.floor(R2, 7)
     ctx.floor(R3, 9)
     ctx.floor(R4, 12)
